@@ -1,0 +1,42 @@
+//go:build verif
+
+// Contracts for contract-based deductive verification (checked by /verif/govc).
+// This file is comment-only and compiled only with the build tag "verif".
+
+package kubernetes
+
+//@ pure kubeShares(m int64) int64 = (m*1024)/1000 < 2 ? 2 : ((m*1024)/1000 > 262144 ? 262144 : (m*1024)/1000)
+//@ pure within(a int64, b int64, d int64) bool = a - b <= d && b - a <= d
+
+//@ func MilliCPUToShares arith-checked
+//@   requires 0 <= milliCPU && milliCPU <= 1 << 50
+//@   ensures[C20,C03] milliCPU == 0 ==> result == 2
+//@   ensures[C20,C03] milliCPU != 0 ==> int64(result) == kubeShares(milliCPU)
+//@   ensures[C20,C03] 2 <= result && result <= 262144
+
+//@ func MilliCPUToQuota arith-checked
+//@   requires 0 <= milliCPU && milliCPU <= 1 << 40
+//@   ensures[C20] milliCPU == 0 ==> quota == 0 && period == 0
+//@   ensures[C20] milliCPU != 0 ==> period == 100000 && quota == (milliCPU * 100 < 1000 ? 1000 : milliCPU * 100)
+
+//@ func SharesToMilliCPU
+//@   requires 2 <= shares && shares <= 262144
+//@   ensures[C20] shares == 2 ==> result == 0
+//@   ensures[C20] shares != 2 ==> within(1024 * result, 1000 * shares, 512)
+
+//@ func QuotaToMilliCPU
+//@   requires 0 <= quota && quota <= 1 << 40 && 0 <= period && period <= 1 << 30
+//@   ensures[C20] (quota == 0 || period == 0) ==> result == 0
+//@   ensures[C20] quota != 0 && period != 0 ==> within(result * period, quota * 1000, period / 2 + 1)
+
+//@ lemma[C20] SharesRoundTrip(m int64): 0 <= m && m <= 256000 ==>
+//@     (let s = int64(MilliCPUToShares(m)) in let r = SharesToMilliCPU(s) in
+//@        (within(r, m, 1) || (s == 2 && within(r, m, 2))))
+//@ lemma[C20] SharesExactAt125(k int64): 1 <= k && k <= 2048 ==>
+//@     SharesToMilliCPU(int64(MilliCPUToShares(125 * k))) == 125 * k
+//@ lemma[C20] SharesMonotone(s1 int64, s2 int64): 2 <= s1 && s1 <= s2 && s2 <= 262144 ==>
+//@     SharesToMilliCPU(s1) <= SharesToMilliCPU(s2)
+//@ lemma[C20] QuotaRoundTrip(m int64): 10 <= m && m <= 256000 ==>
+//@     (let qp = MilliCPUToQuota(m) in QuotaToMilliCPU(qp.0, qp.1) == m)
+//@ lemma[C20] QuotaMonotone(q1 int64, q2 int64, p int64): 1 <= q1 && q1 <= q2 && q2 <= 25600000 && 1000 <= p && p <= 1000000 ==>
+//@     QuotaToMilliCPU(q1, p) <= QuotaToMilliCPU(q2, p)
